@@ -41,6 +41,11 @@ def graph_clustering(adjacency_matrix, nodes, clustering='cc', **kwargs):
                 components = components.as_clustering()
             except AttributeError:
                 pass
+            # a community must not span several connected components
+            # (infomap can attach an isolated node to another module): split along them
+            cc = g.connected_components(mode='weak').membership
+            split = pd.factorize(pd.Series(list(zip(components.membership, cc))))[0]
+            components = igraph.VertexClustering(g, membership=split.tolist())
         cluster_df = pd.DataFrame(dict(node=nodes, cluster=components.membership))
 
     cluster_counts = cluster_df['cluster'].value_counts()
